@@ -56,6 +56,7 @@ type Workload struct {
 	Pool      []string
 	Fns       []string
 	FixedOn   bool // pipeline variant toggle (composition edits)
+	ConnNS    bool // composition sets writeConnectionSecretsToNamespace
 }
 
 // DrawParams tunes workload generation per property.
@@ -172,6 +173,9 @@ func Draw(t *sim.Tape, p DrawParams) *Workload {
 		}
 		w.Templates = append(w.Templates, tm)
 	}
+	if p.Conn {
+		w.ConnNS = t.Next(4) > 0
+	}
 	max := p.MaxXR
 	if max == 0 {
 		max = 2
@@ -198,6 +202,9 @@ func Draw(t *sim.Tape, p DrawParams) *Workload {
 func (wl *Workload) Composition() *v1.Composition {
 	c := &v1.Composition{ObjectMeta: metav1.ObjectMeta{Name: "comp"}}
 	c.Spec.CompositeTypeRef = v1.TypeReference{APIVersion: "example.org/v1", Kind: "XThing"}
+	if wl.ConnNS {
+		c.Spec.WriteConnectionSecretsToNamespace = ptr.To("crossplane-system")
+	}
 	if wl.Pipeline {
 		m := v1.CompositionModePipeline
 		c.Spec.Mode = &m
